@@ -12,9 +12,22 @@
   indexer state are renamed along (`C13_index_commutes`, `C13_indexImpl_commutes`), so the renaming computed for
   `canon x` is the identity and `canon x` is a fixed point by `C13_canon_fixed`. Every clause of `canonWF` is needed
   (`C13_canonWF_clauses_needed`).
+  Declaration order (`C13_declOrder_*`, proofs in `Lemmas/CanonDeclOrder.lean`): permuting the generic parameter list of
+  `impl<…>` changes neither the numbering nor anything of the canonical item except the order of the declarations,
+  provided the declared type / const names are distinct (`C13_declOrder_counterexample`).
+  Alpha-invariance (`C13_alpha_*`, proofs in `Lemmas/CanonAlpha.lean`): consistently respelling the declared parameters
+  (`alphaRename π`) does not change the canonical item, under the executable conditions `canonWF item` and
+  `alphaOK π item`; the conditions that matter have counterexamples (`C13_alpha_*_counterexample*`). The canonical
+  *header* is invariant also when parameters that occur nowhere are respelled (`C13_alpha_header_any`, by the completeness
+  of the indexer `C13_indexer_complete`; proofs in `Lemmas/CanonAlphaHeader.lean`). The executable definitions
+  (`alphaRename`, `alphaOK`, `setParams`, `hdrVis`, …) are in `CanonAlphaDefs.lean` (core only).
 -/
 import DisjointImpls.Lemmas.CanonLemmas
 import DisjointImpls.Lemmas.CanonIdem
+import DisjointImpls.Lemmas.CanonDeclOrder
+import DisjointImpls.Lemmas.CanonAlpha
+import DisjointImpls.Lemmas.CanonAlphaHeader
+import DisjointImpls.Group
 namespace DI
 
 /-! ## The indexer -/
@@ -310,5 +323,305 @@ theorem C13_rs_identity_counterexample :
 example : (declaredTy named).Nodup ∧ declaredTy named = ["U", "T"] ∧ (declaredLt named).Nodup ∧ (declaredCo named).Nodup := by
   with_unfolding_all decide
 end Examples
+
+/-! ## Declaration order
+
+`setParams ps' item` is `item` with the list of generic parameters in `impl<…>` replaced by `ps'`; `implParams item` is
+that list. Side conditions (both executable, both part of `canonWF`): `implDeclsOK item` (the parameter list has the
+shape the decoder produces) and `namesDistinct (canonCtx item)` (of which only "the declared type and const names are
+pairwise distinct" is used: `paramNode` looks a declaration up by name and takes the first one). -/
+
+/-- **the numbering does not depend on the declaration order**: the indexer computes the same renaming for an impl and
+    for the impl with its generic parameter list permuted -/
+theorem C13_declOrder_renaming (item : T) (ps' : List T) (hdecl : implDeclsOK item = true)
+    (hd : namesDistinct (canonCtx item) = true) (hp : ps'.Perm (implParams item)) :
+    (indexImpl (setParams ps' item)).renaming = (indexImpl item).renaming :=
+  (declOrder_permS item ps' hdecl hd hp).renaming
+
+/-- … the whole final state of the indexer is the same, except for the order of the parameters that were never reached -/
+theorem C13_declOrder_state (item : T) (ps' : List T) (hdecl : implDeclsOK item = true)
+    (hd : namesDistinct (canonCtx item) = true) (hp : ps'.Perm (implParams item)) :
+    PermS (indexImpl (setParams ps' item)) (indexImpl item) :=
+  declOrder_permS item ps' hdecl hd hp
+
+/-- **canonicalisation commutes with permuting the declarations**: the canonical form of the permuted impl is the
+    canonical form of the impl with its (renamed) parameter list permuted the same way (`declF r` is what
+    canonicalisation does to one declaration); everything else is identical -/
+theorem C13_declOrder_canon (item : T) (ps' : List T) (hdecl : implDeclsOK item = true)
+    (hd : namesDistinct (canonCtx item) = true) (hp : ps'.Perm (implParams item)) :
+    canon (setParams ps' item) = setParams (ps'.map (declF (indexImpl item).renaming)) (canon item) ∧
+    (ps'.map (declF (indexImpl item).renaming)).Perm (implParams (canon item)) := by
+  obtain ⟨h1, h2⟩ := declOrder_canon item ps' hdecl hd hp
+  exact ⟨h1, h2 ▸ hp.map _⟩
+
+/-- in particular the canonical header (group id: trait path and self type), the trait, the self type, the items and the
+    where-clause are the same -/
+theorem C13_declOrder_header (item : T) (ps' : List T) (hdecl : implDeclsOK item = true)
+    (hd : namesDistinct (canonCtx item) = true) (hp : ps'.Perm (implParams item)) :
+    groupIdOf (canon (setParams ps' item)) = groupIdOf (canon item) ∧
+    implTrait (canon (setParams ps' item)) = implTrait (canon item) ∧
+    implSelfTy (canon (setParams ps' item)) = implSelfTy (canon item) ∧
+    implItems (canon (setParams ps' item)) = implItems (canon item) ∧
+    genericsWhere ((implGenerics (canon (setParams ps' item))).getD (.node "?" [] [])) =
+      genericsWhere ((implGenerics (canon item)).getD (.node "?" [] [])) := by
+  rw [(declOrder_canon item ps' hdecl hd hp).1]
+  exact ⟨mkHdr_setParams _ _, implTrait_setParams _ _, implSelfTy_setParams _ _, implItems_setParams _ _,
+    genericsWhere_setParams _ _⟩
+
+namespace Ex13
+/-- `impl<T: Tr<U>, U> Kita for (T, T::Target) {}`: `named` with the declarations swapped -/
+def namedSwParams : List T := [tyParam "T" [traitBound (trWith "Tr" (tyPath [seg "U"]))], tyParam "U" []]
+/-- `mixed` with its four declarations in another order: `impl<const N: usize, U, 'a, T: Tr<U>> …` -/
+def mixedPermParams : List T := [coParam "N", tyParam "U" [], ltParam "a", tyParam "T" [traitBound (trWith "Tr" (tyPath [seg "U"]))]]
+/-- `impl<T: Tr<U>, T: Tr<V>, U, V> Kita for T {}` (E0403 in Rust): two declarations of one name -/
+def dupDecl : T := implOf [tyParam "T" [traitBound (trWith "Tr" (tyPath [seg "U"]))],
+  tyParam "T" [traitBound (trWith "Tr" (tyPath [seg "V"]))], tyParam "U" [], tyParam "V" []] (tyPath [seg "T"])
+def dupDeclParams : List T := [tyParam "T" [traitBound (trWith "Tr" (tyPath [seg "V"]))],
+  tyParam "T" [traitBound (trWith "Tr" (tyPath [seg "U"]))], tyParam "U" [], tyParam "V" []]
+end Ex13
+
+section OrderExamples
+open Ex13
+set_option maxRecDepth 100000
+
+/-- non-vacuity of the `C13_declOrder_*` theorems: `impl<U, T: Tr<U>>` against `impl<T: Tr<U>, U>`, and the block with a
+    lifetime, two type parameters, a const parameter and a where-clause against a rearrangement of its declarations -/
+theorem C13_declOrder_examples :
+    (implDeclsOK named = true ∧ namesDistinct (canonCtx named) = true ∧ namedSwParams.Perm (implParams named) ∧
+      setParams namedSwParams named ≠ named ∧
+      canon (setParams namedSwParams named) ≠ canon named ∧
+      groupIdOf (canon (setParams namedSwParams named)) = groupIdOf (canon named)) ∧
+    (implDeclsOK mixed = true ∧ namesDistinct (canonCtx mixed) = true ∧ mixedPermParams.Perm (implParams mixed) ∧
+      setParams mixedPermParams mixed ≠ mixed ∧
+      (indexImpl (setParams mixedPermParams mixed)).renaming = ⟨[("a", "_ŠČ0")], [("T", "_ŠČ1"), ("U", "_ŠČ3")], [("N", "_ŠČ2")]⟩) := by
+  refine ⟨⟨?_, ?_, ?_, ?_, ?_, ?_⟩, ?_, ?_, ?_, ?_, ?_⟩
+  · with_unfolding_all decide
+  · with_unfolding_all decide
+  · exact List.Perm.swap _ _ _
+  · with_unfolding_all decide
+  · with_unfolding_all decide
+  · with_unfolding_all decide
+  · with_unfolding_all decide
+  · with_unfolding_all decide
+  · show [coParam "N", tyParam "U" [], ltParam "a", tyParam "T" [traitBound (trWith "Tr" (tyPath [seg "U"]))]].Perm
+      [ltParam "a", tyParam "T" [traitBound (trWith "Tr" (tyPath [seg "U"]))], tyParam "U" [], coParam "N"]
+    refine List.Perm.trans ?_ (List.perm_middle (l₁ := [ltParam "a", tyParam "T" _, tyParam "U" []]) (l₂ := [])).symm
+    refine List.Perm.cons _ ?_
+    refine List.Perm.trans ?_ (List.perm_middle (l₁ := [ltParam "a", tyParam "T" _]) (l₂ := [])).symm
+    exact List.Perm.cons _ (List.Perm.refl _)
+  · with_unfolding_all decide
+  · with_unfolding_all decide
+
+/-- the distinctness of the declared names is needed: with two declarations of one name (rejected by rustc, E0403) the
+    bounds of the first one are walked, so swapping them changes the numbering and the canonical header stays but the
+    renaming differs -/
+theorem C13_declOrder_counterexample :
+    implDeclsOK dupDecl = true ∧ namesDistinct (canonCtx dupDecl) = false ∧ dupDeclParams.Perm (implParams dupDecl) ∧
+    (indexImpl (setParams dupDeclParams dupDecl)).renaming ≠ (indexImpl dupDecl).renaming := by
+  refine ⟨?_, ?_, List.Perm.swap _ _ _, ?_⟩ <;> with_unfolding_all decide
+end OrderExamples
+
+/-! ## Alpha-invariance
+
+`alphaRename π item` (`Lemmas/CanonAlpha.lean`) is the user-level consistent renaming of the declared generic parameters
+by the per-kind map `π` (lifetimes / types / consts): the declarations in `impl<…>`, every lifetime, every lone parameter
+path, and the identifier of the first segment of every longer type or expression path (`T::Assoc` becomes `T'::Assoc`;
+the resolver would write `<T'>::Assoc`). Ignored children (attributes …) and verbatim leaves are kept, nothing else
+changes. The renaming never converts between the two spellings of a lone path (`tparam` / `eparam` for reserved
+identifiers `_ŠČ…`, `Type::Path` / `Expr::Path` for ordinary ones), so it is the textual renaming exactly for maps that
+relate reserved names to reserved names and ordinary names to ordinary names (`formOK π`, executable); the theorems hold
+for every `π` on the tree level.
+
+Executable side condition `alphaOK π item`:
+* `domOK`     only declared parameters are respelled (per kind);
+* `injOK`     the new spellings of the declared parameters are pairwise distinct per name space (lifetimes / types and
+              consts together) — a parameter that is not respelled counts with its own spelling, so a new name does not
+              clash with another declared name (swaps are fine);
+* `deadFixed` a declared parameter the indexer never reaches is not respelled: it keeps its spelling in the canonical
+              form (finding D21), so respelling it shows (`C13_alpha_dead_counterexample`);
+* `alOK`      no capture: an identifier in parameter position that is not a declared parameter is not spelled like
+              the new spelling of a declared one.
+From `canonWF item` the theorems use `implDeclsOK`, `namesDistinct` and — of `rsOK` — only "an expression path whose
+first segment is a const parameter is the bare identifier" (`C13_alpha_const_counterexample`). -/
+
+/-- indexing the respelled impl gives the state of the original indexing with the names respelled: same indices, same
+    order (`mapS π s` respells the names of `s`) -/
+theorem C13_alpha_index (π : Renaming) (item : T) (hdecl : implDeclsOK item = true)
+    (hd : namesDistinct (canonCtx item) = true) (hal : alphaOK π item = true) :
+    indexImpl (alphaRename π item) = mapS π (indexImpl item) :=
+  alpha_indexImpl π item hdecl hd hal
+
+/-- resolving a respelled tree with a renaming that sends the new spellings to the canonical names is resolving the tree
+    (`Comp`: what is needed of the two renamings; `alOK`: no capture; `rsOK cc t`: used for const-headed expression
+    paths only) -/
+theorem C13_alpha_resolve (c cc : CCtx) (r' : Renaming) (cp : Comp c cc.r r') (t : T) (h1 : alOK c t = true)
+    (h2 : rsOK cc t = true) : rsT r' (arT c.r t) = rsT cc.r t :=
+  rsT_arT c cc r' cp t h1 h2
+
+/-- **alpha-invariance of canonicalisation**, with the pieces of `canonWF` that are used -/
+theorem C13_alpha_invariance_of (π : Renaming) (item : T) (hdecl : implDeclsOK item = true)
+    (hd : namesDistinct (canonCtx item) = true) (hrs : rsOK (canonCtx item) item = true)
+    (hal : alphaOK π item = true) : canon (alphaRename π item) = canon item :=
+  canon_alpha π item hdecl hd hrs hal
+
+/-- **alpha-invariance of canonicalisation**: a block and the block with its generic parameters consistently respelled
+    have the same canonical form (the whole item: header, declarations with their bounds, where-clause, items) -/
+theorem C13_alpha_invariance (π : Renaming) (item : T) (hwf : canonWF item = true) (hal : alphaOK π item = true) :
+    canon (alphaRename π item) = canon item := by
+  simp only [canonWF, Bool.and_eq_true] at hwf
+  exact canon_alpha π item hwf.1.1.1 hwf.1.1.2 hwf.2 hal
+
+/-- in particular the same canonical header (group id) and the same extracted bounds -/
+theorem C13_alpha_header (π : Renaming) (item : T) (hwf : canonWF item = true) (hal : alphaOK π item = true) :
+    groupIdOf (canon (alphaRename π item)) = groupIdOf (canon item) ∧
+    findBounds ((implGenerics (canon (alphaRename π item))).getD (.node "?" [] [])) =
+      findBounds ((implGenerics (canon item)).getD (.node "?" [] [])) := by
+  rw [C13_alpha_invariance π item hwf hal]
+  exact ⟨rfl, rfl⟩
+
+/-- the respelled block again has a well-formed parameter list with distinct names -/
+theorem C13_alpha_decls (π : Renaming) (item : T) (hdecl : implDeclsOK item = true) (hal : alphaOK π item = true) :
+    implDeclsOK (alphaRename π item) = true ∧ namesDistinct (canonCtx (alphaRename π item)) = true :=
+  alpha_decls π item hdecl hal
+
+namespace Ex13
+/-- `T ↦ A, U ↦ B` -/
+def piNamed : Renaming := ⟨[], [("T", "A"), ("U", "B")], []⟩
+/-- `impl<B, A: Tr<B>> Kita for (A, A::Target) {}` -/
+def namedAB : T :=
+  implOf [tyParam "B" [], tyParam "A" [traitBound (trWith "Tr" (tyPath [seg "B"]))]]
+    (tuple [tyPath [seg "A"], tyPath [seg "A", seg "Target"]])
+/-- `'a ↦ 'b`, `T` and `U` swapped, `N ↦ M` -/
+def piMixed : Renaming := ⟨[("a", "b")], [("T", "U"), ("U", "T")], [("N", "M")]⟩
+/-- `impl<'b, U: Tr<T>, T, const M: usize> Kita<'b> for [U; M] where T: Tr<U::Target> {}` -/
+def mixedRenamed : T :=
+  implOfW [ltParam "b", tyParam "U" [traitBound (trWith "Tr" (tyPath [seg "T"]))], tyParam "T" [], coParam "M"]
+    (kitaLt "b") (array (tyPath [seg "U"]) (exprPath [seg "M"]))
+    [wherePred (tyPath [seg "T"]) [traitBound (trWith "Tr" (tyPath [seg "U", seg "Target"]))]]
+/-- reserved names to reserved names: `_ŠČ1 ↦ _ŠČ5, _ŠČ0 ↦ _ŠČ1` -/
+def piSwapped : Renaming := ⟨[], [("_ŠČ1", "_ŠČ5"), ("_ŠČ0", "_ŠČ1")], []⟩
+/-- `impl<T, D> Kita for T {}`: `D` is never reached by the indexer -/
+def alphaDead : T := implOf [tyParam "T" [], tyParam "D" []] (tyPath [seg "T"])
+def piDead : Renaming := ⟨[], [("D", "E")], []⟩
+def piConst : Renaming := ⟨[], [], [("N", "K")]⟩
+/-- `impl<T> Kita for (T, u8) {}` with `T ↦ u8` -/
+def alphaCapture : T := implOf [tyParam "T" []] (tuple [tyPath [seg "T"], tyPath [seg "u8"]])
+def piCapture : Renaming := ⟨[], [("T", "u8")], []⟩
+/-- `T ↦ U` on `named`, where `U` is declared and not respelled -/
+def piClash : Renaming := ⟨[], [("T", "U")], []⟩
+end Ex13
+
+section AlphaExamples
+open Ex13
+set_option maxRecDepth 100000
+
+/-- non-vacuity of the `C13_alpha_*` theorems: `impl<U, T: Tr<U>> Kita for (T, T::Target)` respelled to `A`, `B` (the
+    multi-segment path becomes `A::Target`); the block with a lifetime, two type parameters (swapped!), a const parameter
+    and a where-clause; reserved names respelled to reserved names -/
+theorem C13_alpha_examples :
+    (canonWF named = true ∧ alphaOK piNamed named = true ∧ alphaRename piNamed named = namedAB ∧
+      canon namedAB = canon named) ∧
+    (canonWF mixed = true ∧ alphaOK piMixed mixed = true ∧ alphaRename piMixed mixed = mixedRenamed ∧
+      mixedRenamed ≠ mixed) ∧
+    (canonWF swapped = true ∧ alphaOK piSwapped swapped = true ∧ alphaRename piSwapped swapped ≠ swapped) := by
+  refine ⟨⟨?_, ?_, ?_, ?_⟩, ⟨?_, ?_, ?_, ?_⟩, ?_, ?_, ?_⟩ <;> with_unfolding_all decide
+
+/-- non-vacuity of `C13_alpha_resolve`: its hypothesis `Comp` holds for the renaming computed for `named` and the one
+    computed for `named` respelled by `T ↦ A, U ↦ B` -/
+example : Comp (alphaCtx piNamed named) (canonCtx named).r
+    (mapS (alphaCtx piNamed named).r (indexImpl named)).renaming ∧
+    alOK (alphaCtx piNamed named) named = true ∧ rsOK (canonCtx named) named = true := by
+  refine ⟨alpha_comp _ (alpha_stat _ _ ?_ ?_ ?_) _ ?_ (deadFixed_un ?_), ?_, ?_⟩
+  · with_unfolding_all decide
+  · with_unfolding_all decide
+  · with_unfolding_all decide
+  · intro k y; rw [alphaCtx_D]; exact canonCtx_mem_D _ k y
+  · with_unfolding_all decide
+  · with_unfolding_all decide
+  · with_unfolding_all decide
+
+/-- a declared parameter that occurs nowhere keeps its spelling in the canonical form (finding D21), so respelling it
+    changes the canonical item (not its header): `deadFixed` is needed for the equality of the items -/
+theorem C13_alpha_dead_counterexample :
+    canonWF alphaDead = true ∧
+    (domOK (alphaCtx piDead alphaDead), injOK (alphaCtx piDead alphaDead), deadFixed piDead alphaDead,
+      alOK (alphaCtx piDead alphaDead) alphaDead) = (true, true, false, true) ∧
+    canon (alphaRename piDead alphaDead) ≠ canon alphaDead ∧
+    groupIdOf (canon (alphaRename piDead alphaDead)) = groupIdOf (canon alphaDead) := by
+  refine ⟨?_, ?_, ?_, ?_⟩ <;> with_unfolding_all decide
+
+/-- `impl<const N: usize, const M: usize> Kita for ([u8; N::X], [u8; M])` with `N ↦ K`: the resolver does not rewrite
+    `N::X` (while the declaration is renamed), so the respelled `K::X` shows in the canonical form — the block violates
+    `canonWF` (`rsOK`), `alphaOK` holds -/
+theorem C13_alpha_const_counterexample :
+    alphaOK piConst cxConst = true ∧ implDeclsOK cxConst = true ∧ namesDistinct (canonCtx cxConst) = true ∧
+    rsOK (canonCtx cxConst) cxConst = false ∧ canon (alphaRename piConst cxConst) ≠ canon cxConst := by
+  refine ⟨?_, ?_, ?_, ?_, ?_⟩ <;> with_unfolding_all decide
+
+/-- capture (`T ↦ u8` next to a use of `u8`) and a clash with another declared name (`T ↦ U` next to `U`) change the
+    canonical form; each violates exactly one clause of `alphaOK` -/
+theorem C13_alpha_capture_counterexamples :
+    (canonWF alphaCapture = true ∧
+      (domOK (alphaCtx piCapture alphaCapture), injOK (alphaCtx piCapture alphaCapture), deadFixed piCapture alphaCapture,
+        alOK (alphaCtx piCapture alphaCapture) alphaCapture) = (true, true, true, false) ∧
+      canon (alphaRename piCapture alphaCapture) ≠ canon alphaCapture) ∧
+    (canonWF named = true ∧
+      (domOK (alphaCtx piClash named), injOK (alphaCtx piClash named), deadFixed piClash named,
+        alOK (alphaCtx piClash named) named) = (true, false, true, true) ∧
+      canon (alphaRename piClash named) ≠ canon named) := by
+  refine ⟨⟨?_, ?_, ?_⟩, ?_, ?_, ?_⟩ <;> with_unfolding_all decide
+
+/-- the maps of the examples relate ordinary names to ordinary names and reserved names to reserved names -/
+theorem C13_alpha_forms : formOK piNamed = true ∧ formOK piMixed = true ∧ formOK piSwapped = true ∧
+    formOK ⟨[], [("T", "_ŠČ7")], []⟩ = false := by
+  refine ⟨?_, ?_, ?_, ?_⟩ <;> decide +kernel
+end AlphaExamples
+
+/-! ## Alpha-invariance of the header when unused parameters are respelled as well
+
+Respelling a declared parameter the indexer never reaches changes the canonical item (`C13_alpha_dead_counterexample`),
+not its header: a name that occurs in a position the indexer visits is indexed (`C13_indexer_complete`), so the trait
+path and the self type mention live parameters only. `alphaOKh` is `alphaOK` without `deadFixed`; `hdrVis item`
+(executable) says that the indexer visits the whole trait and self type: they contain no `Generics` node (the indexer
+has `visit_generics` switched off while the resolver rewrites inside — `C13_alpha_hidden_counterexample`) and the
+attributes of their expression paths are ignored children (what the decoder produces). -/
+
+/-- **completeness of the indexer**: after indexing a tree it visits completely, no name in a parameter position of the
+    tree is still waiting (`IxInv s`, `Un c s`, `Stat c`: the invariants of the indexer under distinct declared names) -/
+theorem C13_indexer_complete (c : CCtx) (st : Stat c) (t : T) (s : IxState) (hi : IxInv s) (hu : Un c s)
+    (hv : ixVis t = true) : alP (livePred (ixT s t)) t = true :=
+  ixT_complete c st t s hi hu hv
+
+/-- **alpha-invariance of the canonical header**, also when parameters that occur nowhere are respelled -/
+theorem C13_alpha_header_any (π : Renaming) (item : T) (hwf : canonWF item = true) (hal : alphaOKh π item = true)
+    (hv : hdrVis item = true) : groupIdOf (canon (alphaRename π item)) = groupIdOf (canon item) := by
+  simp only [canonWF, Bool.and_eq_true] at hwf
+  exact canon_alpha_header π item hwf.1.1.1 hwf.1.1.2 hwf.2 hal hv
+
+namespace Ex13
+/-- `impl<T, D> Kita for (T, ⟨a nested generics node mentioning D⟩)`: the indexer does not look into `Generics` nodes -/
+def alphaHidden : T :=
+  implOf [tyParam "T" [], tyParam "D" []] (tuple [tyPath [seg "T"], .node "Generics" [] [tyPath [seg "D"]]])
+end Ex13
+
+section AlphaHeaderExamples
+open Ex13
+set_option maxRecDepth 100000
+
+/-- non-vacuity of `C13_alpha_header_any`: `impl<T, D> Kita for T` with the unused `D` respelled (the canonical items
+    differ, `C13_alpha_dead_counterexample`), and the examples of `C13_alpha_examples` -/
+theorem C13_alpha_header_any_examples :
+    (canonWF alphaDead = true ∧ alphaOKh piDead alphaDead = true ∧ hdrVis alphaDead = true ∧
+      alphaOK piDead alphaDead = false) ∧
+    (alphaOKh piNamed named = true ∧ hdrVis named = true) ∧ (alphaOKh piMixed mixed = true ∧ hdrVis mixed = true) := by
+  refine ⟨⟨?_, ?_, ?_, ?_⟩, ⟨?_, ?_⟩, ?_, ?_⟩ <;> with_unfolding_all decide
+
+/-- `hdrVis` is needed: a parameter mentioned only inside a `Generics` node is never indexed, keeps its spelling, and
+    the resolver leaves it alone — respelling it shows in the canonical header -/
+theorem C13_alpha_hidden_counterexample :
+    canonWF alphaHidden = true ∧ alphaOKh piDead alphaHidden = true ∧ hdrVis alphaHidden = false ∧
+    groupIdOf (canon (alphaRename piDead alphaHidden)) ≠ groupIdOf (canon alphaHidden) := by
+  refine ⟨?_, ?_, ?_, ?_⟩ <;> with_unfolding_all decide
+end AlphaHeaderExamples
 
 end DI
